@@ -258,7 +258,7 @@ func coreAllowance(s *sim.CoreSim, cfg sim.CoreCfg, fs *sim.FateScript) int64 {
 			maxRto = max(maxRto, int64(r))
 		}
 	}
-	rtt := int64(fs.BaseDelay[0]+fs.BaseDelay[1]) + int64(cfg.EP[0].Interval+cfg.EP[1].Interval)
+	rtt := int64(fs.BaseDelay[0]+fs.BaseDelay[1]) + int64(cfg.EP[0].Interval+cfg.EP[1].Interval) + 10_000 // the interval may be re-tuned up to 5 s at each end
 	return 2*(maxRto+60_000) + 2*180_000 + 4*rtt + 10_000
 }
 
@@ -365,7 +365,7 @@ func TestC02Session(t *testing.T) {
 			}
 			defer p.Finish(nil)
 			setPairLinks(s, p, fs)
-			ivSum := cfg.Opts[0].Interval + cfg.Opts[1].Interval + 400 // the interval may be re-tuned up to 200 ms
+			ivSum := cfg.Opts[0].Interval + cfg.Opts[1].Interval + 10_000 // the interval may be re-tuned up to 5 s at each end
 			if wfAt >= 0 {
 				// the tuning calls scheduled before the fault, the fault, the rest
 				var before, after []sessRetune
